@@ -597,6 +597,25 @@ func ruleC08KindGroups(c *Ctx) {
 		})
 		c.R.Check(okDom, rule, "object-group:string-keys-only", c.pos(keyKindTest), "maps with a non-string key kind are refused before any keyed access", "a keyed access to the instance is reachable without passing the test of the map's key kind")
 	}
+	// the string keywords are applied to every value of kind String: the counted string is instance.String(),
+	// not the result of a type assertion (which excludes defined string types)
+	core.EachInstr(m.E, func(i ssa.Instruction) {
+		call, ok := i.(*ssa.Call)
+		if !ok || !strings.HasPrefix(core.CalleeKey(&call.Call), "unicode/utf8.RuneCount") {
+			return
+		}
+		okSrc := true
+		for _, src := range traceSources(call.Call.Args[0]) {
+			sc, isCall := src.(*ssa.Call)
+			if !isCall || core.CalleeKey(&sc.Call) != "reflect.Value.String" || !isSame(sc.Call.Args[0]) {
+				okSrc = false
+			}
+		}
+		n++
+		c.R.Check(okSrc, rule, "string-group:subject-is-instance.String()", c.pos(call), "the string keywords measure instance.String() for every value of kind String", "the string measured for minLength/maxLength/pattern is not reflect.Value.String() of the instance (e.g. the result of a type assertion to string): values of a defined string type silently skip the string keywords although `type` reports \"string\"")
+		ks := kf.At(call)
+		c.R.Check(Kinds(kString).SubsetOf(ks) && ks.SubsetOf(Kinds(kString)), rule, "coverage:string-group", c.pos(call), "the string keywords run exactly for kind String", fmt.Sprintf("the string keywords run for instance kinds %s, expected exactly {String}", ks))
+	})
 	// coverage: the array keywords run for Go arrays and slices alike, the object keywords for maps, the string keywords for strings
 	for _, s := range m.Sites {
 		if s.Call.Parent() != m.E || s.Loc != "child" {
@@ -1015,6 +1034,28 @@ func ruleC12DecidedByEqual(c *Ctx) {
 			}
 		})
 		c.R.Check(okDep, rule, kw+":failure-depends-on-equality", c.pos(call), "the keyword fails exactly on the equality outcome", "no failure exit of "+kw+" depends on the result of the equality function")
+		// no other comparison decides a match inside the keyword's region
+		var region *ssa.BasicBlock
+		core.EachInstr(m.E, func(i ssa.Instruction) {
+			if ifi, ok := i.(*ssa.If); ok {
+				if x, k, equal, isEq := eqConst(guardAtom{Cond: ifi.Cond, Pol: true}); isEq && k.IsNil() && !equal && c.mentionsField(x, kw, 3) {
+					region = ifi.Block().Succs[0]
+				}
+			}
+		})
+		if region != nil {
+			core.EachInstr(m.E, func(i ssa.Instruction) {
+				bo, ok := i.(*ssa.BinOp)
+				if !ok || (bo.Op != token.EQL && bo.Op != token.NEQ) || !region.Dominates(bo.Block()) {
+					return
+				}
+				if tString(bo.X.Type()) || isNumeric(bo.X.Type()) && !isIntType(bo.X.Type()) {
+					if dependsOnCallNamed(bo.X, []string{"reflect.Value.String", "reflect.Value.Float", "reflect.Value.Int"}, 4) || dependsOnCallNamed(bo.Y, []string{"reflect.Value.String", "reflect.Value.Float", "reflect.Value.Int"}, 4) {
+						c.R.Bad(rule, kw+":direct-comparison", c.pos(bo), kw+" compares a representation of the instance directly (strings or machine numbers) instead of through the equality function: a json.Number is compared as text, so enum [1,2,3] rejects the number 2 decoded with UseNumber")
+					}
+				}
+			})
+		}
 	}
 	// uniqueItems
 	var region *ssa.If
@@ -1398,4 +1439,9 @@ func blockReturnsConst(b *ssa.BasicBlock, val string) bool {
 		b = b.Succs[0]
 	}
 	return false
+}
+
+// sameRegionBefore: a is in a block from which the call is reachable (it belongs to the same keyword's code).
+func sameRegionBefore(a ssa.Instruction, call ssa.Instruction, fn *ssa.Function) bool {
+	return core.Reachable(a.Block(), call.Block(), nil) || a.Block() == call.Block()
 }
